@@ -687,6 +687,9 @@ class AstToCfg(ast.NodeVisitor):
     self.cfgs = {}
 
     self.lexical_scopes = []
+    # Try statements whose handlers are being visited. Their finally block
+    # still guards the handlers, but their except clauses do not.
+    self.try_handler_scopes = set()
 
   def _enter_lexical_scope(self, node):
     self.lexical_scopes.append(node)
@@ -707,7 +710,8 @@ class AstToCfg(ast.NodeVisitor):
   def _get_enclosing_except_scopes(self, stop_at):
     included = []
     for node in reversed(self.lexical_scopes):
-      if isinstance(node, ast.Try) and node.handlers:
+      if (isinstance(node, ast.Try) and node.handlers and
+          node not in self.try_handler_scopes):
         included.extend(node.handlers)
       if isinstance(node, stop_at):
         break
@@ -968,9 +972,10 @@ class AstToCfg(ast.NodeVisitor):
       self.builder.new_cond_branch(block_representative)
       self.builder.exit_cond_section(block_representative)
 
-    self._exit_lexical_scope(node)
-
     if node.handlers:
+      # Jumps inside the handlers still pass through the finally block of this
+      # statement, so the handlers are visited inside its lexical scope.
+      self.try_handler_scopes.add(node)
       # Using node would be inconsistent. Using the first handler node is also
       # inconsistent, but less so.
       block_representative = node.handlers[0]
@@ -980,6 +985,9 @@ class AstToCfg(ast.NodeVisitor):
         self.visit(block)
       self.builder.new_cond_branch(block_representative)
       self.builder.exit_cond_section(block_representative)
+      self.try_handler_scopes.discard(node)
+
+    self._exit_lexical_scope(node)
 
     if node.finalbody:
       self.builder.enter_finally_section(node)
